@@ -503,7 +503,7 @@ static void c10_check(void)
 
 // ------------------------------------------------------------------------------------------------
 // C08: client programs over the public API; device life-cycle monitor in the mock driver
-//   A/B: configure stream 0 with device set A (vcam0,vstore0) / B (vcam1,vstore1); 2: both streams; 0: no stream
+//   A/B/C/D: configure stream 0 with (vcam0,vstore0) / (vcam1,vstore1) / (vcam0,vstore1) / (vcam1,vstore0); 2: both streams; 0: no stream
 //   s start, t trigger, m map, u unmap, S stop, a abort, g get_state, X shutdown+init; every program ends with shutdown
 // ------------------------------------------------------------------------------------------------
 static void c08_setup(void)
@@ -524,6 +524,8 @@ static void c08_configure(char which)
     for (int s = 0; s < 2; ++s) { p.video[s].camera.identifier.kind = DeviceKind_None; p.video[s].storage.identifier.kind = DeviceKind_None; p.video[s].max_frame_count = 2; p.video[s].frame_average_count = 0; }
     if (which == 'A') rt_select(&p, 0, "vcam0", "vstore0");
     if (which == 'B') rt_select(&p, 0, "vcam1", "vstore1");
+    if (which == 'C') rt_select(&p, 0, "vcam0", "vstore1"); // same camera, another storage of the same driver
+    if (which == 'D') rt_select(&p, 0, "vcam1", "vstore0"); // another camera, same storage
     if (which == '2') { rt_select(&p, 0, "vcam0", "vstore0"); rt_select(&p, 1, "vcam1", "vstore1"); }
     acquire_configure(RT, &p); // may legitimately report an error (e.g. no stream): the oracle is the device monitor
 }
@@ -546,7 +548,7 @@ static void c08_run(void)
     for (const char* p = prog; *p; ++p) {
         char one[2] = { *p, 0 };
         switch (*p) {
-            case 'A': case 'B': case '2': case '0': c08_configure(*p); break;
+            case 'A': case 'B': case 'C': case 'D': case '2': case '0': c08_configure(*p); break;
             case 's': acquire_start(RT); break;
             case 't': acquire_execute_trigger(RT, 0); break;
             case 'm': {
